@@ -1,7 +1,5 @@
 package c15
 
-import "strings"
-
 // strs returns every string over alpha of length <= n, shortest first.
 func strs(alpha []string, n int) []string {
 	out := []string{""}
@@ -53,9 +51,10 @@ var twoArg = []string{"Index", "Contains", "HasPrefix", "HasSuffix", "Count", "S
 var AllFunctions = append(append([]string{}, twoArg...), "Join", "Repeat", "Replace", "ReplaceAll", "TrimSpace")
 
 func spaces(thorough bool) []fnSpace {
-	subjN, sepN := 2, 1
+	subjN, sepN, batch := 2, 1, 24
 	if thorough {
-		subjN, sepN = 3, 2
+		// every script pays ~0.1 s for lexing std/strings.tsh: larger batches in the big tier
+		subjN, sepN, batch = 3, 2, 60
 	}
 	subj := strs(abc, subjN)
 	seps := strs(abc, sepN)
@@ -63,7 +62,7 @@ func spaces(thorough bool) []fnSpace {
 	counts := []int{-2, -1, 0, 1, 2, 3, 4}
 	var out []fnSpace
 	for _, fn := range twoArg {
-		fs := fnSpace{Fn: fn, Batch: 24}
+		fs := fnSpace{Fn: fn, Batch: batch}
 		for _, s := range subj {
 			for _, p := range seps {
 				fs.Tuples = append(fs.Tuples, Tuple{Fn: fn, S: []string{s, p}})
@@ -77,7 +76,7 @@ func spaces(thorough bool) []fnSpace {
 		if thorough {
 			el, n = []string{"", "a", "b", " ", "ab"}, 4
 		}
-		fs := fnSpace{Fn: "Join", Batch: 24}
+		fs := fnSpace{Fn: "Join", Batch: batch}
 		for _, l := range lists(el, n) {
 			for _, p := range seps {
 				fs.Tuples = append(fs.Tuples, Tuple{Fn: "Join", IsJ: true, Elems: l, S: []string{p}})
@@ -86,7 +85,7 @@ func spaces(thorough bool) []fnSpace {
 		out = append(out, fs)
 	}
 	{
-		fs := fnSpace{Fn: "Repeat", Batch: 24}
+		fs := fnSpace{Fn: "Repeat", Batch: batch}
 		for _, s := range subj {
 			for _, c := range counts {
 				fs.Tuples = append(fs.Tuples, Tuple{Fn: "Repeat", S: []string{s}, N: c, HasN: true})
@@ -95,8 +94,8 @@ func spaces(thorough bool) []fnSpace {
 		out = append(out, fs)
 	}
 	{
-		fs := fnSpace{Fn: "Replace", Batch: 24}
-		fa := fnSpace{Fn: "ReplaceAll", Batch: 24}
+		fs := fnSpace{Fn: "Replace", Batch: batch}
+		fa := fnSpace{Fn: "ReplaceAll", Batch: batch}
 		for _, s := range subj {
 			for _, o := range seps {
 				for _, nw := range repl {
@@ -111,7 +110,7 @@ func spaces(thorough bool) []fnSpace {
 	}
 	{
 		// TrimSpace: the blank alphabet plus the other white space the library lists.
-		fs := fnSpace{Fn: "TrimSpace", Batch: 24}
+		fs := fnSpace{Fn: "TrimSpace", Batch: batch}
 		seen := map[string]bool{}
 		for _, s := range subj {
 			seen[s] = true
@@ -131,15 +130,3 @@ func spaces(thorough bool) []fnSpace {
 	}
 	return out
 }
-
-// ---------------------------------------------------------------------------
-// shape classes: a partition of each function's tuple space by precise
-// predicates on the tuple. shapeDoc states each predicate in words.
-
-var shapeDoc = map[string]string{}
-
-func shapeOf(t Tuple) string {
-	return "todo"
-}
-
-var _ = strings.Contains
